@@ -296,6 +296,7 @@ type vxC20Tab struct {
 	EHV   bool `json:"ehv"`
 	CA    int  `json:"ca"` // 0 absent 1 valid(CA 0) 2 missing 3 garbage 4 empty 5 pem-without-cert 6 bad DER 7 directory
 	KP    int  `json:"kp"` // 0 absent 1 valid 2 cert only 3 key only 4 garbage cert 5 garbage key 6 missing cert 7 key of another pair
+	Own   bool `json:"own,omitempty"` // Config.Certificates already holds a certificate of the caller's (only when Cfg != 0)
 }
 
 var vxC20CANames = []string{"absent", "valid", "missing", "garbage", "empty", "nocert-pem", "bad-der", "directory"}
@@ -323,6 +324,9 @@ func vxC20TabAll() []*vxC20Tab {
 			for _, c := range cfgs {
 				for _, ehv := range []bool{false, true} {
 					all = append(all, &vxC20Tab{Cfg: c.cfg, SN: c.sn, Roots: c.roots, EHV: ehv, CA: ca, KP: kp})
+					if c.cfg != 0 {
+						all = append(all, &vxC20Tab{Cfg: c.cfg, SN: c.sn, Roots: c.roots, EHV: ehv, CA: ca, KP: kp, Own: true})
+					}
 				}
 			}
 		}
@@ -350,7 +354,14 @@ func vxC20TabRun(ci interface{}, k *vstats.Case) error {
 		if c.Roots {
 			cfg.RootCAs = fx.pool(1)
 		}
+		if c.Own {
+			cfg.Certificates = []tls.Certificate{{Certificate: [][]byte{[]byte("a certificate the caller put there")}}}
+		}
 		return cfg
+	}
+	own := 0
+	if c.Own && c.Cfg != 0 {
+		own = 1
 	}
 	caller, want := mk(), mk()
 	opts := &SslOptions{Config: caller, EnableHostVerification: c.EHV}
@@ -448,12 +459,12 @@ func vxC20TabRun(ci interface{}, k *vstats.Case) error {
 	}
 	switch c.KP {
 	case 0:
-		if n := len(got.Certificates); n != 0 {
-			return fmt.Errorf("no key pair configured but the effective config has %d client certificates", n)
+		if n := len(got.Certificates); n != own {
+			return fmt.Errorf("no key pair configured but the effective config has %d client certificates (the caller's config had %d)", n, own)
 		}
 	case 1:
-		if n := len(got.Certificates); n != 1 || len(got.Certificates[0].Certificate) == 0 || !bytes.Equal(got.Certificates[0].Certificate[0], fx.cliDER) {
-			return fmt.Errorf("valid CertPath/KeyPath: effective config does not carry exactly that client certificate (%d certificates)", n)
+		if n := len(got.Certificates); n != 1+own || len(got.Certificates[n-1].Certificate) == 0 || !bytes.Equal(got.Certificates[n-1].Certificate[0], fx.cliDER) {
+			return fmt.Errorf("valid CertPath/KeyPath: effective config does not carry that client certificate (behind the caller's %d) - it has %d certificates", own, n)
 		}
 	}
 	return known
@@ -507,7 +518,7 @@ func TestVxC20Table(t *testing.T) {
 	}
 	vxC20Sweep(t, vx.Prop{
 		ID: "C20", Part: "TestVxC20Table",
-		Rule: "full product, enumerated not sampled: Config {nil, present x ISV t/f x ServerName set/unset x own RootCAs yes/no} x EnableHostVerification t/f x CaPath {absent, valid, missing, garbage, empty, PEM without certificate, CERTIFICATE block with bad DER, directory} x CertPath/KeyPath {absent, valid, cert only, key only, garbage cert, garbage key, missing cert, key of another pair} = 9*2*8*8 = 1152 rows; every row is non-trivial (definite expected result) and distinct by all fields",
+		Rule: "full product, enumerated not sampled: Config {nil, present x ISV t/f x ServerName set/unset x own RootCAs yes/no} x EnableHostVerification t/f x CaPath {absent, valid, missing, garbage, empty, PEM without certificate, CERTIFICATE block with bad DER, directory} x CertPath/KeyPath {absent, valid, cert only, key only, garbage cert, garbage key, missing cert, key of another pair} x the caller's Config already holding a certificate of its own (when present) = 17*2*8*8 = 2176 rows; every row is non-trivial (definite expected result) and distinct by all fields",
 		New: func() interface{} { return &vxC20Tab{} },
 		Run: vxC20TabRun,
 	}, cases)
